@@ -66,8 +66,9 @@ func limitedReadAll(reader io.Reader) ([]byte, error) {
 func New(timeout time.Duration) *StrictHTTPClient {
 	return &StrictHTTPClient{
 		client: &http.Client{
-			Transport: SafeHttpTransport,
-			Timeout:   timeout,
+			Transport:     SafeHttpTransport,
+			Timeout:       timeout,
+			CheckRedirect: checkRedirect,
 		},
 	}
 }
@@ -77,8 +78,9 @@ func New(timeout time.Duration) *StrictHTTPClient {
 func NewWithCache(timeout time.Duration) *StrictHTTPClient {
 	return &StrictHTTPClient{
 		client: &http.Client{
-			Transport: DefaultCachingTransport,
-			Timeout:   timeout,
+			Transport:     DefaultCachingTransport,
+			Timeout:       timeout,
+			CheckRedirect: checkRedirect,
 		},
 	}
 }
@@ -91,10 +93,24 @@ func NewWithTLSConfig(timeout time.Duration, tlsConfig *tls.Config) *StrictHTTPC
 	transport.TLSClientConfig = tlsConfig
 	return &StrictHTTPClient{
 		client: &http.Client{
-			Transport: transport,
-			Timeout:   timeout,
+			Transport:     transport,
+			Timeout:       timeout,
+			CheckRedirect: checkRedirect,
 		},
 	}
+}
+
+// checkRedirect makes sure redirects are not followed to a non-HTTPS URL in strict mode
+// (otherwise the check in Do() only covers the first request).
+func checkRedirect(req *http.Request, via []*http.Request) error {
+	if StrictMode && req.URL.Scheme != "https" {
+		return errors.New("strictmode is enabled, but redirect is not over HTTPS")
+	}
+	if len(via) >= 10 {
+		// same as the net/http default
+		return errors.New("stopped after 10 redirects")
+	}
+	return nil
 }
 
 type StrictHTTPClient struct {
